@@ -416,37 +416,67 @@ def discarded_results(ctx, rep, modules: Optional[Sequence[str]] = None, label: 
 
 
 # ------------------------------------------------------------------ a suffix is stripped once
+def _double_strip_sites(fns: Sequence[ast.AST]):
+    """(call, receiver, is_bad, fn) for every `.with_suffix()` call in fns (the methods of one class, or loose functions)"""
+    def from_stem(e: ast.AST) -> bool:
+        return any(isinstance(a, ast.Attribute) and a.attr == "stem" for a in ast.walk(e))
+    stem_attrs: Set[str] = set()
+    for fn in fns:
+        for st in ast.walk(fn):
+            if isinstance(st, ast.Assign) and from_stem(st.value):
+                for t in st.targets:
+                    if isinstance(t, ast.Attribute) and isinstance(t.value, ast.Name) and t.value.id == "self":
+                        stem_attrs.add(t.attr)
+    out = []
+    for fn in fns:
+        for c in ast.walk(fn):
+            if isinstance(c, ast.Call) and isinstance(c.func, ast.Attribute) and c.func.attr == "with_suffix":
+                r = c.func.value
+                bad = any(from_stem(x) for x in astq.expand_locals(r, fn)) or (
+                    isinstance(r, ast.Attribute) and isinstance(r.value, ast.Name) and r.value.id == "self" and r.attr in stem_attrs)
+                out.append((c, r, bad, fn))
+    return out
+
+
+_DOUBLE_STRIP_EXAMPLE = """
+class P:
+    def __init__(self, path):
+        self.filename = Path(path.stem)
+    def out(self):
+        return self.filename.with_suffix(".html")
+    def fine(self, path):
+        return path.with_suffix(".html")
+"""
+
+
 def double_suffix_strip(ctx, rep, modules: Optional[Sequence[str]] = None, label: str = ""):
     """`p.stem` already is the name without its suffix; applying `.with_suffix(...)` to it replaces whatever follows the
     last remaining dot, so `notes.v1.md` and `notes.v2.md` both become `notes.html`.  Flags `.with_suffix()` whose receiver is
-    (an attribute or local assigned from) an expression built on `.stem`."""
+    (an attribute or local assigned from) an expression built on `.stem`.  The expected number of matches is zero, so the
+    matcher is first run on a built-in example where it must find exactly one bad and one good site."""
     py = ctx.py
+    ex = [n for n in ast.walk(ast.parse(_DOUBLE_STRIP_EXAMPLE)) if isinstance(n, ast.FunctionDef)]
+    got = sorted(b for _c, _r, b, _f in _double_strip_sites(ex))
+    if got != [False, True]:
+        raise AnalysisError("double_suffix_strip: the matcher fails on its own example")
     n = 0
-    def from_stem(e: ast.AST) -> bool:
-        return any(isinstance(a, ast.Attribute) and a.attr == "stem" for a in ast.walk(e))
-    for cname, ci in list(py.classes.items()) + [(None, None)]:
-        fns = list(ci.methods.values()) if ci is not None else [fn for m, fn in py.all_functions() if py.enclosing_class(fn) is None]
-        if ci is not None and modules is not None and ci.module not in modules:
+    groups = [(ci.module, list(ci.methods.values())) for ci in py.classes.values()]
+    loose: Dict[str, List[ast.AST]] = {}
+    for m, fn in py.all_functions():
+        if py.enclosing_class(fn) is None:
+            loose.setdefault(m, []).append(fn)
+    groups += list(loose.items())
+    inspected = 0
+    for mod, fns in groups:
+        if modules is not None and mod not in modules:
             continue
-        stem_attrs: Set[str] = set()
-        for fn in fns:
-            for st in ast.walk(fn):
-                if isinstance(st, ast.Assign) and from_stem(st.value):
-                    for t in st.targets:
-                        if isinstance(t, ast.Attribute) and isinstance(t.value, ast.Name) and t.value.id == "self":
-                            stem_attrs.add(t.attr)
-        for fn in fns:
-            if modules is not None and py.module_of(fn) not in modules:
-                continue
-            for c in ast.walk(fn):
-                if isinstance(c, ast.Call) and isinstance(c.func, ast.Attribute) and c.func.attr == "with_suffix":
-                    r = c.func.value
-                    alts = astq.expand_locals(r, fn)
-                    bad = any(from_stem(x) for x in alts) or (isinstance(r, ast.Attribute) and isinstance(r.value, ast.Name)
-                                                              and r.value.id == "self" and r.attr in stem_attrs)
-                    n += 1
-                    rep.ob(f"{label}{py.qualname(fn)}: `{ast.unparse(c)[:50]}` replaces a real suffix", not bad,
-                           "the receiver still carries the file's own suffix" if not bad else
-                           f"`{ast.unparse(r)}` was built from `.stem` (the suffix is already gone): with_suffix() now cuts at the last dot of "
-                           f"the stem, so `notes.v1.md` and `notes.v2.md` are both written to `notes.html`", py.nloc(c), nontrivial=bad)
-    return n
+        inspected += len(fns)
+        for c, r, bad, fn in _double_strip_sites(fns):
+            n += 1
+            rep.ob(f"{label}{py.qualname(fn)}: `{ast.unparse(c)[:50]}` replaces a real suffix", not bad,
+                   "the receiver still carries the file's own suffix" if not bad else
+                   f"`{ast.unparse(r)}` was built from `.stem` (the suffix is already gone): with_suffix() now cuts at the last dot of "
+                   f"the stem, so `notes.v1.md` and `notes.v2.md` are both written to `notes.html`", py.nloc(c), nontrivial=bad)
+    rep.ob(f"{label}no with_suffix() on a name whose suffix was already removed", True,
+           f"{inspected} functions inspected, {n} with_suffix() call(s)", "ford/")
+    return n + 1
